@@ -39,6 +39,7 @@ class Ctx:
         self.pcons = {}          # poly key -> (lo, hi) on the current path
         self.depth = 0
         self.rcache = {}         # atom id -> range, valid for this context (cleared when the context is refined)
+        self.rems = {}           # key of a remainder polynomial x - floor(x / y) y -> key of y: shared, append-only
         self.bands = {}          # key of (x and y) -> (x, y): shared, append-only
         self.bors = {}           # key of (x or y) -> (x, y)
 
@@ -61,7 +62,7 @@ class Ctx:
     def fork(self):
         c = Ctx.__new__(Ctx)
         c.atoms, c.index = self.atoms, self.index            # shared (append-only)
-        c.bands, c.bors = self.bands, self.bors
+        c.bands, c.bors, c.rems = self.bands, self.bors, self.rems
         c.override, c.pcons, c.depth = dict(self.override), dict(self.pcons), self.depth
         c.rcache = {}
         return c
@@ -196,6 +197,27 @@ def _atom_range(cx, at):
         return (max(a[0], b[0]), a[1] + b[1])
     if k == "XOR":
         return (0, (1 << d["w"]) - 1)
+    if k == "Q":
+        xlo, xhi = prange(cx, d["x"])
+        ylo, yhi = prange(cx, d["y"])
+        if xlo < 0 or ylo < 0 or yhi <= 0:
+            raise Undecided("division with a possibly negative or zero operand")
+        hi = xhi // max(ylo, 1)
+        # x == R * 2^k + a with R a remainder by the same divisor (R < y) and 0 <= a < 2^k: x / y < 2^k
+        ky = pkey(d["y"])
+        for rk, yk in cx.rems.items():
+            if yk != ky:
+                continue
+            R = dict(rk)
+            if any(a_ >= at for a_ in atoms_of(R)):
+                continue                # only remainders that existed before this quotient
+            for kk in (8, 16, 32, 64):
+                rest = padd(d["x"], pscale(R, 1 << kk), -1)
+                if len(rest) <= 3:
+                    rlo, rhi = prange(cx, rest)
+                    if 0 <= rlo and rhi < (1 << kk):
+                        hi = min(hi, (1 << kk) - 1)
+        return (xlo // yhi, hi)
     raise Undecided("atom kind " + k)
 
 
@@ -503,6 +525,17 @@ def _F(cx, a, k):
             break
         return padd(out, F(cx, dict((m, c >> j) for m, c in mult.items()), k - j))
 
+    # inner == R - 2^k D for a registered remainder R known to lie in [0, 2^k): floor(inner / 2^k) == -D
+    for rk in cx.rems:
+        rr = cx.pcons.get(rk)
+        if rr is None or rr[0] < 0 or rr[1] >= K:
+            continue
+        D = padd(dict(rk), inner, -1)
+        if D and all(c % K == 0 for c in D.values()):
+            return padd(out, dict((m, -(c // K)) for m, c in D.items()))
+        if not D:
+            return out
+
     def direct(c2, p):
         lo, hi = prange(c2, p)
         if (lo >> k) == (hi >> k):
@@ -568,8 +601,26 @@ def Z(cx, a):
     return cx.atom("Z", pkey(canon), {"arg": canon})
 
 
+def Qdiv(cx, x, y):
+    """floor(x / y) for non-negative x and positive y (both polynomials); registers the remainder x - q y in [0, y)"""
+    xlo, xhi = prange(cx, x)
+    ylo, yhi = prange(cx, y)
+    if xlo < 0 or ylo < 0:
+        raise Undecided("division of a possibly negative value")
+    if ylo > 0 and xhi < ylo:
+        return {}
+    q = cx.atom("Q", (pkey(x), pkey(y)), {"x": x, "y": y})
+    r = padd(x, pmul(q, y), -1)
+    if r and not is_const(r):
+        cx.rems[pkey(r)] = pkey(y)
+        cx.pcons[pkey(r)] = (0, max(yhi - 1, 0))
+    return q
+
+
 def LT(cx, a, b):
     """[a < b] for exact integer polynomials"""
+    if cx.rems.get(pkey(a)) == pkey(b):
+        return const(1)             # a remainder is below its divisor
     d = padd(a, b, -1)
     lo, hi = prange(cx, d)
     bits = max(abs(lo), abs(hi) + 1).bit_length() + 1
@@ -1042,6 +1093,14 @@ def run_function(mod_text, fn, cx, params, layout, max_paths=64, max_steps=40000
             return M(cx, padd(x, y, -1), w, (rx[0] - ry[1], rx[1] - ry[0]))
         if op == "mul":
             return M(cx, pmul(x, y), w, _imul(rx, ry))
+        if op in ("udiv", "urem"):
+            if is_const(y) and cval(y) > 0 and cval(y) & (cval(y) - 1) == 0:
+                k = cval(y).bit_length() - 1
+                return F(cx, x, k) if op == "udiv" else M(cx, x, k)
+            if is_const(x) and is_const(y) and cval(y):
+                return const(cval(x) // cval(y) if op == "udiv" else cval(x) % cval(y))
+            q = Qdiv(cx, x, y)
+            return q if op == "udiv" else padd(x, pmul(q, y), -1)
         if op in ("shl", "lshr", "ashr"):
             if not is_const(y):
                 raise Undecided("shift by a symbolic count")
@@ -1192,6 +1251,11 @@ def evaluate(cx, a, asg, memo=None):
             v = evaluate(cx, d["a"], asg, memo) | evaluate(cx, d["b"], asg, memo)
         elif k == "XOR":
             v = (evaluate(cx, d["a"], asg, memo) ^ evaluate(cx, d["b"], asg, memo)) % (1 << d["w"])
+        elif k == "Q":
+            yv = evaluate(cx, d["y"], asg, memo)
+            if yv == 0:
+                raise Undecided("division by zero at the sample")
+            v = evaluate(cx, d["x"], asg, memo) // yv
         else:
             raise Undecided("unassigned limb atom")
         memo[at] = v
